@@ -148,11 +148,30 @@ impl ParserState {
             }
             if let Some(arr) = self.context.pop() {
                 if let Some(val_list) = self.context.last_mut() {
+                    // every member name is followed by one or more values (RFC 8010 section 3.1.6)
                     let mut map: BTreeMap<String, IppValue> = BTreeMap::new();
-                    for idx in (0..arr.len()).step_by(2) {
-                        if let (Some(IppValue::MemberAttrName(k)), Some(v)) = (arr.get(idx), arr.get(idx + 1)) {
-                            map.insert(k.to_string(), v.clone());
+                    let mut name = String::new();
+                    let mut in_member = false;
+                    let mut values: Vec<IppValue> = Vec::new();
+                    for item in arr {
+                        match item {
+                            IppValue::MemberAttrName(next) => {
+                                if in_member && !values.is_empty() {
+                                    map.insert(name, list_or_value(std::mem::take(&mut values)));
+                                }
+                                name = next;
+                                in_member = true;
+                            }
+                            value => {
+                                // values before the first member name belong to no member
+                                if in_member {
+                                    values.push(value);
+                                }
+                            }
                         }
+                    }
+                    if in_member && !values.is_empty() {
+                        map.insert(name, list_or_value(values));
                     }
                     val_list.push(IppValue::Collection(map));
                 }
